@@ -108,7 +108,7 @@ def build_tier(ctx):
         if pre in seen:
             continue
         seen.add(pre)
-        grp = (b[0]["mode"], tuple(sorted(set(p for s in b for p, v in s["cfg"].items() if v != "e"))))
+        grp = (b[0]["mode"], tuple(sorted(set(p for s in b for p, v in s["cfg"].items() if v != "e" and p != "route"))))
         if per.get(grp, 0) >= 3:
             continue
         per[grp] = per.get(grp, 0) + 1
@@ -142,7 +142,7 @@ def build_tier(ctx):
         if o is None:
             raise Broken("no output for build history %d" % i)
         mode = b[0]["mode"]
-        varied = "+".join(sorted(set(p for s in b for p, v in s["cfg"].items() if v != "e")))
+        varied = "+".join(sorted(set(p for s in b for p, v in s["cfg"].items() if v != "e" and p != "route")))
         for j, s in enumerate(b):
             ob = o["obs"][j]
             builds += 1
@@ -158,12 +158,12 @@ def build_tier(ctx):
                 ctx.mismatch("build-runs-foreign-code:%s:%s" % ("+".join(bad), varied),
                              "%s build %d (%s) ran code with %s, its own configuration gives %s (differs in %s); history %s" %
                              (mode, j, ob["act"], ob["out"], want, bad,
-                              [{p: v for p, v in t["cfg"].items() if v != "e"} for t in b[:j + 1]]),
+                              [{p: v for p, v in t["cfg"].items() if v != "e" and p != "route"} for t in b[:j + 1]]),
                              [cases[i]])
             if ob["act"] != s["exp"]["act"]:
                 ctx.mismatch("build-act:%s-expected-%s:%s" % (ob["act"], s["exp"]["act"], varied),
                              "%s build %d was %s, the spec says %s; history %s" %
-                             (mode, j, ob["act"], s["exp"]["act"], [{p: v for p, v in t["cfg"].items() if v != "e"} for t in b[:j + 1]]),
+                             (mode, j, ob["act"], s["exp"]["act"], [{p: v for p, v in t["cfg"].items() if v != "e" and p != "route"} for t in b[:j + 1]]),
                              [cases[i]])
     ctx.traces_validated += len(behaviours)
     ctx.cov.update({"build_histories_replayed": len(behaviours), "real_builds_in_fresh_processes": builds,
